@@ -211,7 +211,8 @@ PROPS = {
     'C15': dict(
         tv=dict(module='TokenStreamTrace', cfg='TokenStreamTrace.C15.cfg'),
         mc=[dict(module='LexerMC', tag='g', cfg={'quick': 'LexerMC.generic.quick.cfg', 'thorough': 'LexerMC.generic.thorough.cfg'}),
-            dict(module='LexerMC', tag='e', cfg={'quick': 'LexerMC.expression.quick.cfg', 'thorough': 'LexerMC.expression.thorough.cfg'})],
+            dict(module='LexerMC', tag='e', cfg={'quick': 'LexerMC.expression.quick.cfg', 'thorough': 'LexerMC.expression.thorough.cfg'}),
+            dict(module='TokenizerLoopMC', cfg='TokenizerLoopMC.cfg', workers=4)],
         corrupt=[('drop a character of an output token', _dropchar('out'))],
         exhaustive_part=True,
     ),
@@ -303,7 +304,7 @@ PROPS = {
     ),
     'C03': dict(
         tv=dict(module='OutcomeTrace', cfg='OutcomeTrace.cfg'),
-        mc=[],
+        mc=[dict(module='TokenizerLoopMC', cfg='TokenizerLoopMC.cfg', workers=4)],
         corrupt=[('turn a normal return into neither', _neither)],
         exhaustive_part=True,
     ),
